@@ -3,14 +3,17 @@
 //! Request line:
 //!   `<op> <fam> wd <W> ann <A> nh <kind> attrs <len>`
 //!   op   = split (into_messages) | iter (into_pdu_iter) | take (take_message) | single (into_message)
-//!   fam  = v4u | v6u | v4ua | v6ua | v6fs | v4m | v6m | v4mpls
+//!   fam  = one of the 13 families v4u v4m v4mpls v4vpn v4rt v4fs v6u v6m v6mpls v6vpn v6fs vpls evpn,
+//!          with the suffix `a` for its ADD-PATH variant (v4ua, v6mplsa, evpna, ...): 26 NLRI types
 //!   W    = `-` (no MP_UNREACH builder) | `e` (add_withdrawals_from_pdu of a foreign-family PDU: adds nothing) | tok+
 //!   A    = `-` | tok+            tok = <size> | <size>x<count>   (encoded NLRI size in bytes)
-//!   kind = `-` (family default, set_nexthop not called) | v4 | m4 | v6 | ll | ll2 | vpn4 | vpn6 | empty
+//!   kind = `-` (family default, set_nexthop not called) | v4 | m4 | v6 | ll | ll2 | vpn4 | vpn6 | empty | unimpl
+//!          | ll3 (set_nexthop_ll_addr alone) | v4ll (set_nexthop(IPv4) then set_nexthop_ll_addr: no such next hop)
 //!   len  = total encoded size of the (non-MP) path attributes, 0 or >= 3
 //! Reply: per produced PDU `len:nWd:nAnn:attrLen:nhLen:paLenField` as judged by the
-//! independent decoder below (written from RFC 4271 / 4760 / 7911 / 8955; it
-//! shares no code with routecore).
+//! independent decoder below (written from RFC 4271 / 4760 / 7911 / 8277 / 4364 / 4684 /
+//! 8955 / 4761 / 7432; it shares no code with routecore). The NLRI of the families added later
+//! are encoded by the reference encoders of c05.rs (`ref_enc`), equally independent.
 use crate::common::*;
 use bytes::Bytes;
 use inetnum::addr::Prefix;
@@ -18,10 +21,8 @@ use octseq::Parser;
 use routecore::bgp::communities::StandardCommunity;
 use routecore::bgp::message::update_builder::{ComposeError, UpdateBuilder};
 use routecore::bgp::message::{SessionConfig, UpdateMessage};
-use routecore::bgp::nlri::afisafi::{
-    AfiSafiType, Ipv4MplsUnicastNlri, Ipv4MulticastNlri, Ipv4UnicastAddpathNlri, Ipv4UnicastNlri,
-    Ipv6FlowSpecNlri, Ipv6MulticastNlri, Ipv6UnicastAddpathNlri, Ipv6UnicastNlri, NlriParse,
-};
+use crate::props::c05::{gen_fs_components, ref_enc, Shape, Val};
+use routecore::bgp::nlri::afisafi::*;
 use routecore::bgp::path_attributes::{PaMap, PathAttribute, UnimplementedPathAttribute};
 use routecore::bgp::types::{LocalPref, NextHop, Origin, OriginType, PathId, RouteDistinguisher};
 use std::cell::RefCell;
@@ -32,13 +33,27 @@ pub struct C06;
 const MAX_PDU: usize = 4096;
 
 #[derive(Clone, Copy, PartialEq, Eq, Debug)]
-enum Fam { V4u, V6u, V4ua, V6ua, V6fs, V4m, V6m, V4mpls }
+enum Base { V4u, V4m, V4mpls, V4vpn, V4rt, V4fs, V6u, V6m, V6mpls, V6vpn, V6fs, Vpls, Evpn }
+use Base::*;
+
+/// an NLRI type: one of the 13 families, with or without path ids
+#[derive(Clone, Copy, PartialEq, Eq, Debug)]
+struct Fam { b: Base, ap: bool }
+
+const BASES: [(Base, &str); 13] = [(V4u, "v4u"), (V4m, "v4m"), (V4mpls, "v4mpls"), (V4vpn, "v4vpn"), (V4rt, "v4rt"),
+    (V4fs, "v4fs"), (V6u, "v6u"), (V6m, "v6m"), (V6mpls, "v6mpls"), (V6vpn, "v6vpn"), (V6fs, "v6fs"), (Vpls, "vpls"), (Evpn, "evpn")];
+
+fn fam_of(s: &str) -> Option<Fam> {
+    if let Some((b, _)) = BASES.iter().find(|(_, n)| *n == s) { return Some(Fam { b: *b, ap: false }); }
+    let t = s.strip_suffix('a')?;
+    BASES.iter().find(|(_, n)| *n == t).map(|(b, _)| Fam { b: *b, ap: true })
+}
 
 #[derive(Clone, Copy, PartialEq, Eq, Debug)]
 enum Op { Split, Iter, Take, Single }
 
 #[derive(Clone, Copy, PartialEq, Eq, Debug)]
-enum Nh { Default, V4, M4, V6, Ll, Ll2, Vpn4, Vpn6, Empty, Unimpl }
+enum Nh { Default, V4, M4, V6, Ll, Ll2, Ll3, V4ll, Vpn4, Vpn6, Empty, Unimpl }
 
 #[derive(Clone, Debug)]
 struct Case {
@@ -58,17 +73,30 @@ fn num(s: &str) -> Option<usize> {
     s.parse().ok()
 }
 
-fn size_ok(f: Fam, s: usize) -> bool {
-    match f {
-        Fam::V4u | Fam::V4m => (1..=5).contains(&s),
-        Fam::V6u | Fam::V6m => (1..=17).contains(&s),
-        // length octet, 1..=9 labels of 3 bytes, 0..=4 prefix bytes
-        Fam::V4mpls => (4..=32).contains(&s),
-        Fam::V4ua => (5..=9).contains(&s),
-        Fam::V6ua => (5..=21).contains(&s),
-        // one length octet up to a 239-byte body, two from 240 to 4095
-        Fam::V6fs => (1..=240).contains(&s) || (242..=4097).contains(&s),
+/// encoded sizes an NLRI of the family can have (without the path id)
+fn base_size_ok(b: Base, s: usize) -> bool {
+    match b {
+        V4u | V4m => (1..=5).contains(&s),
+        V6u | V6m => (1..=17).contains(&s),
+        // length octet, 1.. labels of 3 bytes, prefix bytes; at most 255 bits after the length octet
+        V4mpls | V6mpls => (4..=32).contains(&s),
+        // length octet, labels, 8-byte route distinguisher, prefix bytes
+        V4vpn | V6vpn => (12..=32).contains(&s),
+        // RFC 4684: 0..=96 bits
+        V4rt => (1..=13).contains(&s),
+        // one length octet up to a 239-byte body, two from 240 to 4095; an IPv4 FlowSpec body
+        // is a sequence of components, none of which has one byte
+        V4fs => s == 1 || (3..=240).contains(&s) || (242..=4097).contains(&s),
+        V6fs => (1..=240).contains(&s) || (242..=4097).contains(&s),
+        // RFC 4761: two-octet length (17) and 17 bytes
+        Vpls => s == 19,
+        // RFC 7432: route type, length octet, up to 255 bytes
+        Evpn => (2..=257).contains(&s),
     }
+}
+
+fn size_ok(f: Fam, s: usize) -> bool {
+    if f.ap { s > 4 && base_size_ok(f.b, s - 4) } else { base_size_ok(f.b, s) }
 }
 
 fn toks(f: Fam, ts: &[&str]) -> Option<Vec<usize>> {
@@ -89,7 +117,7 @@ fn parse_line(line: &str) -> Option<Case> {
     let w: Vec<&str> = line.split(' ').collect();
     if w.len() < 10 { return None; }
     let op = match w[0] { "split" => Op::Split, "iter" => Op::Iter, "take" => Op::Take, "single" => Op::Single, _ => return None };
-    let fam = match w[1] { "v4u" => Fam::V4u, "v6u" => Fam::V6u, "v4ua" => Fam::V4ua, "v6ua" => Fam::V6ua, "v6fs" => Fam::V6fs, "v4m" => Fam::V4m, "v6m" => Fam::V6m, "v4mpls" => Fam::V4mpls, _ => return None };
+    let fam = fam_of(w[1])?;
     if w[2] != "wd" { return None; }
     let n = w.len();
     if w[n - 2] != "attrs" || w[n - 4] != "nh" { return None; }
@@ -101,7 +129,7 @@ fn parse_line(line: &str) -> Option<Case> {
     let ann = if at == ["-"] { vec![] } else { toks(fam, at)? };
     let nh = match w[n - 3] {
         "-" => Nh::Default, "v4" => Nh::V4, "m4" => Nh::M4, "v6" => Nh::V6, "ll" => Nh::Ll, "ll2" => Nh::Ll2,
-        "vpn4" => Nh::Vpn4, "vpn6" => Nh::Vpn6, "empty" => Nh::Empty, "unimpl" => Nh::Unimpl, _ => return None,
+        "vpn4" => Nh::Vpn4, "vpn6" => Nh::Vpn6, "empty" => Nh::Empty, "unimpl" => Nh::Unimpl, "ll3" => Nh::Ll3, "v4ll" => Nh::V4ll, _ => return None,
     };
     let attrs = num(w[n - 1])?;
     if attrs == 1 || attrs == 2 { return None; }
@@ -132,10 +160,19 @@ fn v6_parts(psize: usize, idx: usize) -> (u8, u128) {
     (bits, a)
 }
 
-/// (number of labels, prefix bytes) of an MPLS NLRI of `size` bytes
+/// (number of labels, prefix bytes) of an IPv4 MPLS NLRI of `size` bytes
 fn mpls_shape(size: usize) -> (usize, usize) {
     let k = ((size - 1) / 3).min(9);
     (k, size - 1 - 3 * k)
+}
+
+/// (number of labels, prefix bytes) for `q` = label + prefix bytes, at most `pmax` prefix bytes;
+/// the number of labels varies with `idx` over everything the size allows
+fn label_shape(q: usize, pmax: usize, idx: usize) -> (usize, usize) {
+    let kmin = (if q > pmax { (q - pmax + 2) / 3 } else { 1 }).max(1);
+    let kmax = q / 3;
+    let k = kmin + idx % (kmax - kmin + 1);
+    (k, q - 3 * k)
 }
 
 fn fs_body(size: usize, idx: usize) -> Vec<u8> {
@@ -143,37 +180,86 @@ fn fs_body(size: usize, idx: usize) -> Vec<u8> {
     (0..n).map(|j| (idx.wrapping_mul(31).wrapping_add(j * 7)) as u8).collect()
 }
 
+fn ref_labels(k: usize, idx: usize) -> Vec<u8> {
+    let mut v = Vec::new();
+    for j in 0..k {
+        let lbl = 16 + ((idx * 7 + j) % 1000) as u32;
+        v.extend_from_slice(&[(lbl >> 12) as u8, (lbl >> 4) as u8, ((lbl << 4) as u8) | if j + 1 == k { 1 } else { 0 }]);
+    }
+    v
+}
+
+fn shape_of(b: Base) -> Shape {
+    match b { V4u | V4m | V6u | V6m => Shape::Pfx, V4mpls | V6mpls => Shape::Mpls, V4vpn | V6vpn => Shape::Vpn, V4rt => Shape::Rt,
+        V4fs | V6fs => Shape::Fs, Vpls => Shape::Vpls, Evpn => Shape::Evpn }
+}
+
+/// the value of NLRI number `idx` of the families that are encoded by c05's reference encoders
+/// (`ps` = encoded size without the path id)
+fn ref_val(b: Base, ps: usize, idx: usize) -> Val {
+    let mut v = Val::default();
+    let bytes = |n: usize, salt: usize| -> Vec<u8> { (0..n).map(|j| (mix(idx.wrapping_mul(131) + salt) >> (8 * (j % 8))) as u8 ^ (j / 8) as u8).collect() };
+    let pfx = |v: &mut Val, v6: bool, p: usize| {
+        if v6 { let (bits, a) = v6_parts(p + 1, idx); v.plen = bits as u64; v.addr = a.to_be_bytes().to_vec(); }
+        else { let (bits, a) = v4_parts(p + 1, idx); v.plen = bits as u64; v.addr = a.to_be_bytes().to_vec(); }
+    };
+    match b {
+        V6mpls => { let (k, p) = label_shape(ps - 1, 16, idx); v.labels = ref_labels(k, idx); pfx(&mut v, true, p); }
+        V4vpn | V6vpn => {
+            let v6 = b == V6vpn;
+            let (k, p) = label_shape(ps - 9, if v6 { 16 } else { 4 }, idx);
+            v.labels = ref_labels(k, idx);
+            v.rd = bytes(8, 1);
+            if idx % 3 == 0 { v.rd[0] = 0; v.rd[1] = (idx % 3) as u8; }
+            pfx(&mut v, v6, p);
+        }
+        V4rt => v.raw = bytes(ps - 1, 2),
+        V4fs => {
+            v.afi = 1;
+            let n = if ps <= 240 { ps - 1 } else { ps - 2 };
+            v.raw = if n == 0 { vec![] } else { gen_fs_components(&mut Rng::new(mix(idx) ^ ps as u64), n) };
+        }
+        Vpls => {
+            v.rd = bytes(8, 3);
+            let m = mix(idx + 5);
+            v.ve = [m & 0xffff, (m >> 16) & 0xffff, (m >> 32) & 0xffff];
+            v.lb = (m >> 40) & 0xff_ffff;
+        }
+        Evpn => { v.t = 1 + (idx % 5) as u64; v.raw = bytes(ps - 2, 4); }
+        _ => unreachable!(),
+    }
+    v
+}
+
 /// reference encoding of NLRI number `idx` (`wd`: withdrawals use another index space)
 fn ref_nlri(f: Fam, size: usize, idx: usize) -> Vec<u8> {
     let mut v = Vec::new();
-    match f {
-        Fam::V4mpls => {
-            let (k, p) = mpls_shape(size);
+    // RFC 7911: the path identifier comes first
+    let ps = if f.ap { v.extend_from_slice(&(idx as u32).to_be_bytes()); size - 4 } else { size };
+    match f.b {
+        V4mpls => {
+            let (k, p) = mpls_shape(ps);
             let (bits, a) = v4_parts(p + 1, idx);
             v.push((24 * k) as u8 + bits);
-            for j in 0..k {
-                let lbl = 16 + ((idx * 7 + j) % 1000) as u32;
-                v.extend_from_slice(&[(lbl >> 12) as u8, (lbl >> 4) as u8, ((lbl << 4) as u8) | if j + 1 == k { 1 } else { 0 }]);
-            }
+            v.extend(ref_labels(k, idx));
             v.extend_from_slice(&a.to_be_bytes()[..p]);
         }
-        Fam::V4u | Fam::V4ua | Fam::V4m => {
-            let ps = if f == Fam::V4ua { v.extend_from_slice(&(idx as u32).to_be_bytes()); size - 4 } else { size };
+        V4u | V4m => {
             let (bits, a) = v4_parts(ps, idx);
             v.push(bits);
             v.extend_from_slice(&a.to_be_bytes()[..ps - 1]);
         }
-        Fam::V6u | Fam::V6ua | Fam::V6m => {
-            let ps = if f == Fam::V6ua { v.extend_from_slice(&(idx as u32).to_be_bytes()); size - 4 } else { size };
+        V6u | V6m => {
             let (bits, a) = v6_parts(ps, idx);
             v.push(bits);
             v.extend_from_slice(&a.to_be_bytes()[..ps - 1]);
         }
-        Fam::V6fs => {
-            let b = fs_body(size, idx);
+        V6fs => {
+            let b = fs_body(ps, idx);
             if b.len() >= 240 { v.extend_from_slice(&(0xf000u16 | b.len() as u16).to_be_bytes()); } else { v.push(b.len() as u8); }
             v.extend_from_slice(&b);
         }
+        b => v.extend(ref_enc(shape_of(b), &ref_val(b, ps, idx))),
     }
     debug_assert_eq!(v.len(), size);
     v
@@ -184,23 +270,28 @@ const V6NH: [u8; 16] = [0x20, 0x01, 0x0d, 0xb8, 0, 0, 0, 0, 0, 0, 0, 0, 0, 0, 0,
 const LLNH: [u8; 16] = [0xfe, 0x80, 0, 0, 0, 0, 0, 0, 0, 0, 0, 0, 0, 0, 0, 1];
 const RD: [u8; 8] = [0, 1, 0, 2, 0, 3, 0, 4];
 
+/// address bytes of the next hop a family has by nature: IPv4 / IPv6 address, for the VPN
+/// families preceded by a route distinguisher (RFC 4364 / 4659), none for FlowSpec (RFC 8955)
+fn default_nh_bytes(f: Fam) -> usize {
+    match f.b { V4u | V4m | V4mpls | V4rt | Vpls | Evpn => 4, V6u | V6m | V6mpls => 16, V4vpn => 12, V6vpn => 24, V4fs | V6fs => 0 }
+}
+
 /// reference encoding of the next-hop field (length octet + bytes)
 fn ref_nh(f: Fam, nh: Nh) -> Vec<u8> {
     let mut v = Vec::new();
     match nh {
-        Nh::Default => match f {
-            Fam::V4u | Fam::V4ua | Fam::V4m | Fam::V4mpls => { v.push(4); v.extend_from_slice(&[0; 4]); }
-            Fam::V6u | Fam::V6ua | Fam::V6m => { v.push(16); v.extend_from_slice(&[0; 16]); }
-            Fam::V6fs => v.push(0),
-        },
+        // `set_nexthop` not called: the all-zero next hop of the family's natural form
+        Nh::Default => { let n = default_nh_bytes(f); v.push(n as u8); v.extend(std::iter::repeat(0u8).take(n)); }
         Nh::V4 | Nh::M4 => { v.push(4); v.extend_from_slice(&V4NH); }
         Nh::V6 => { v.push(16); v.extend_from_slice(&V6NH); }
         Nh::Ll | Nh::Ll2 => { v.push(32); v.extend_from_slice(&V6NH); v.extend_from_slice(&LLNH); }
+        // a link-local address given alone: the global one is unspecified (::)
+        Nh::Ll3 => { v.push(32); v.extend_from_slice(&[0; 16]); v.extend_from_slice(&LLNH); }
         Nh::Vpn4 => { v.push(12); v.extend_from_slice(&RD); v.extend_from_slice(&V4NH); }
         Nh::Vpn6 => { v.push(24); v.extend_from_slice(&RD); v.extend_from_slice(&V6NH); }
         Nh::Empty => v.push(0),
         // no wire form: the builder must refuse it
-        Nh::Unimpl => {}
+        Nh::Unimpl | Nh::V4ll => {}
     }
     v
 }
@@ -291,11 +382,23 @@ fn dec_nlri_list(mut b: &[u8], afi: u16, safi: u8, addpath: bool) -> Result<Vec<
         let start = b;
         if addpath { take(&mut b, 4, "pathid")?; }
         match (afi, safi) {
-            (1, 4) => {
+            (1, 4) | (2, 4) => {
                 // RFC 8277: length in bits of labels + prefix
                 let bits = take(&mut b, 1, "plen")?[0] as usize;
-                if bits < 24 || bits > 24 * 10 + 32 { return Err("mpls-length".into()); }
+                if bits < 24 || bits > 24 * 10 + if afi == 1 { 32 } else { 128 } { return Err("mpls-length".into()); }
                 take(&mut b, (bits + 7) / 8, "labels+prefix")?;
+            }
+            (1, 128) | (2, 128) => {
+                // RFC 4364 4.3.4: length in bits of labels + route distinguisher + prefix
+                let bits = take(&mut b, 1, "plen")?[0] as usize;
+                if bits < 24 + 64 { return Err("vpn-length".into()); }
+                take(&mut b, (bits + 7) / 8, "labels+rd+prefix")?;
+            }
+            (1, 132) => {
+                // RFC 4684 4: origin AS + route target, 0..=96 bits
+                let bits = take(&mut b, 1, "plen")?[0] as usize;
+                if bits > 96 { return Err("rt-length".into()); }
+                take(&mut b, (bits + 7) / 8, "rt")?;
             }
             (1, 1) | (2, 1) | (1, 2) | (2, 2) => {
                 let bits = take(&mut b, 1, "plen")?[0] as usize;
@@ -306,6 +409,19 @@ fn dec_nlri_list(mut b: &[u8], afi: u16, safi: u8, addpath: bool) -> Result<Vec<
                 let l1 = take(&mut b, 1, "fslen")?[0] as usize;
                 let n = if l1 >= 0xf0 { ((l1 << 8) | take(&mut b, 1, "fslen2")?[0] as usize) & 0x0fff } else { l1 };
                 take(&mut b, n, "fsbody")?;
+            }
+            (25, 65) => {
+                // RFC 4761 3.2.2: two-octet length, then that many bytes (17)
+                let l = take(&mut b, 2, "vplslen")?;
+                let n = ((l[0] as usize) << 8) | l[1] as usize;
+                if n != 17 { return Err("vpls-length".into()); }
+                take(&mut b, n, "vpls")?;
+            }
+            (25, 70) => {
+                // RFC 7432 7: route type, length, route type specific
+                take(&mut b, 1, "evpntype")?;
+                let n = take(&mut b, 1, "evpnlen")?[0] as usize;
+                take(&mut b, n, "evpn")?;
             }
             _ => return Err("family".into()),
         }
@@ -388,8 +504,8 @@ fn real_nh(nh: Nh) -> Option<NextHop> {
     let v4 = IpAddr::V4(Ipv4Addr::from(V4NH));
     let v6 = Ipv6Addr::from(V6NH);
     Some(match nh {
-        Nh::Default => return None,
-        Nh::V4 => NextHop::Unicast(v4),
+        Nh::Default | Nh::Ll3 => return None,
+        Nh::V4 | Nh::V4ll => NextHop::Unicast(v4),
         Nh::M4 => NextHop::Multicast(v4),
         Nh::V6 | Nh::Ll2 => NextHop::Unicast(IpAddr::V6(v6)),
         Nh::Ll => NextHop::Ipv6LL(v6, Ipv6Addr::from(LLNH)),
@@ -405,17 +521,14 @@ fn real_nh(nh: Nh) -> Option<NextHop> {
 /// repair of K7; now it leaves the builder unchanged (the `e` lines check exactly that)
 fn foreign_pdu(f: Fam) -> UpdateMessage<Bytes> {
     let cfg = SessionConfig::modern();
-    let raw: Vec<u8> = match f {
-        Fam::V4u | Fam::V4ua | Fam::V4m | Fam::V4mpls => {
-            let mut b = UpdateBuilder::<Vec<u8>, Ipv6UnicastNlri>::new_vec();
-            b.add_withdrawal(Ipv6UnicastNlri::try_from(Prefix::new_v6(Ipv6Addr::from(V6NH), 128).unwrap()).unwrap()).unwrap();
-            b.into_message(&cfg).unwrap().as_ref().to_vec()
-        }
-        _ => {
-            let mut b = UpdateBuilder::<Vec<u8>, Ipv4UnicastNlri>::new_vec();
-            b.add_withdrawal(Ipv4UnicastNlri::try_from(Prefix::new_v4(Ipv4Addr::from(V4NH), 32).unwrap()).unwrap()).unwrap();
-            b.into_message(&cfg).unwrap().as_ref().to_vec()
-        }
+    let raw: Vec<u8> = if f.b != V6u {
+        let mut b = UpdateBuilder::<Vec<u8>, Ipv6UnicastNlri>::new_vec();
+        b.add_withdrawal(Ipv6UnicastNlri::try_from(Prefix::new_v6(Ipv6Addr::from(V6NH), 128).unwrap()).unwrap()).unwrap();
+        b.into_message(&cfg).unwrap().as_ref().to_vec()
+    } else {
+        let mut b = UpdateBuilder::<Vec<u8>, Ipv4UnicastNlri>::new_vec();
+        b.add_withdrawal(Ipv4UnicastNlri::try_from(Prefix::new_v4(Ipv4Addr::from(V4NH), 32).unwrap()).unwrap()).unwrap();
+        b.into_message(&cfg).unwrap().as_ref().to_vec()
     };
     UpdateMessage::from_octets(Bytes::from(raw), &cfg).unwrap()
 }
@@ -430,7 +543,7 @@ macro_rules! run_family {
             let mut b = UpdateBuilder::<Vec<u8>, $A>::from_attributes_builder(pamap);
             for i in 0..ncomm { b.add_community(StandardCommunity::from_raw(comm_raw(i))).unwrap(); }
             if let Some(nh) = real_nh(c.nh) { b.set_nexthop(nh).unwrap(); }
-            if c.nh == Nh::Ll2 { b.set_nexthop_ll_addr(Ipv6Addr::from(LLNH)).unwrap(); }
+            if matches!(c.nh, Nh::Ll2 | Nh::Ll3 | Nh::V4ll) { b.set_nexthop_ll_addr(Ipv6Addr::from(LLNH)).unwrap(); }
             match &c.wd {
                 None => {}
                 Some(v) if v.is_empty() => {
@@ -453,8 +566,12 @@ macro_rules! run_family {
         let bound = n_nlri + 2;
         let mut run = Run { items: vec![], hang: false, rem: None, split_err: None, nh_rejected: false };
         // a next hop without a wire form must be refused where it is set
-        if let Some(nh) = real_nh(c.nh) {
-            if UpdateBuilder::<Vec<u8>, $A>::new_vec().set_nexthop(nh).is_err() { run.nh_rejected = true; }
+        {
+            let mut probe = UpdateBuilder::<Vec<u8>, $A>::new_vec();
+            if let Some(nh) = real_nh(c.nh) { if probe.set_nexthop(nh).is_err() { run.nh_rejected = true; } }
+            if !run.nh_rejected && matches!(c.nh, Nh::Ll2 | Nh::Ll3 | Nh::V4ll) {
+                if probe.set_nexthop_ll_addr(Ipv6Addr::from(LLNH)).is_err() { run.nh_rejected = true; }
+            }
         }
         let as_item = |r: Result<UpdateMessage<Vec<u8>>, ComposeError>| match r {
             Ok(m) => Item::Msg(m.as_ref().to_vec()),
@@ -492,57 +609,77 @@ macro_rules! run_family {
 }
 
 fn afisafi(f: Fam) -> (u16, u8, bool) {
-    match f {
-        Fam::V4u => (1, 1, false), Fam::V4ua => (1, 1, true),
-        Fam::V6u => (2, 1, false), Fam::V6ua => (2, 1, true),
-        Fam::V6fs => (2, 133, false),
-        Fam::V4m => (1, 2, false), Fam::V6m => (2, 2, false), Fam::V4mpls => (1, 4, false),
-    }
+    let (a, s) = match f.b {
+        V4u => (1, 1), V4m => (1, 2), V4mpls => (1, 4), V4vpn => (1, 128), V4rt => (1, 132), V4fs => (1, 133),
+        V6u => (2, 1), V6m => (2, 2), V6mpls => (2, 4), V6vpn => (2, 128), V6fs => (2, 133), Vpls => (25, 65), Evpn => (25, 70),
+    };
+    (a, s, f.ap)
 }
 
 fn run_case(c: &Case) -> Run {
     let mut cfg = SessionConfig::modern();
-    match c.fam {
-        Fam::V4u => run_family!(c, Ipv4UnicastNlri, &cfg, |s: usize, i: usize| {
+    let f = c.fam;
+    if f.ap {
+        // the session both sides agreed ADD-PATH on for this family
+        let (a, s, _) = afisafi(f);
+        cfg.add_addpath_rxtx(AfiSafiType::from((a, s)));
+    }
+    // NLRI values built by the family's own parser from the reference encoding
+    macro_rules! parsed {
+        ($T:ty) => { run_family!(c, $T, &cfg, |s: usize, i: usize| {
+            let raw = Bytes::from(ref_nlri(f, s, i));
+            let mut p = Parser::from_ref(&raw);
+            let n = <$T as NlriParse<'_, Bytes, Bytes>>::parse(&mut p).unwrap();
+            assert_eq!(p.remaining(), 0);
+            n
+        }) };
+    }
+    match (f.b, f.ap) {
+        // the prefix families also through their constructors
+        (V4u, false) => run_family!(c, Ipv4UnicastNlri, &cfg, |s: usize, i: usize| {
             let (bits, a) = v4_parts(s, i);
             Ipv4UnicastNlri::try_from(Prefix::new_v4(Ipv4Addr::from(a), bits).unwrap()).unwrap()
         }),
-        Fam::V6u => run_family!(c, Ipv6UnicastNlri, &cfg, |s: usize, i: usize| {
+        (V6u, false) => run_family!(c, Ipv6UnicastNlri, &cfg, |s: usize, i: usize| {
             let (bits, a) = v6_parts(s, i);
             Ipv6UnicastNlri::try_from(Prefix::new_v6(Ipv6Addr::from(a), bits).unwrap()).unwrap()
         }),
-        Fam::V4ua => {
-            cfg.add_addpath_rxtx(AfiSafiType::Ipv4Unicast);
-            run_family!(c, Ipv4UnicastAddpathNlri, &cfg, |s: usize, i: usize| {
-                let (bits, a) = v4_parts(s - 4, i);
-                Ipv4UnicastAddpathNlri::try_from((Prefix::new_v4(Ipv4Addr::from(a), bits).unwrap(), PathId(i as u32))).unwrap()
-            })
-        }
-        Fam::V6ua => {
-            cfg.add_addpath_rxtx(AfiSafiType::Ipv6Unicast);
-            run_family!(c, Ipv6UnicastAddpathNlri, &cfg, |s: usize, i: usize| {
-                let (bits, a) = v6_parts(s - 4, i);
-                Ipv6UnicastAddpathNlri::try_from((Prefix::new_v6(Ipv6Addr::from(a), bits).unwrap(), PathId(i as u32))).unwrap()
-            })
-        }
-        Fam::V4m => run_family!(c, Ipv4MulticastNlri, &cfg, |s: usize, i: usize| {
+        (V4u, true) => run_family!(c, Ipv4UnicastAddpathNlri, &cfg, |s: usize, i: usize| {
+            let (bits, a) = v4_parts(s - 4, i);
+            Ipv4UnicastAddpathNlri::try_from((Prefix::new_v4(Ipv4Addr::from(a), bits).unwrap(), PathId(i as u32))).unwrap()
+        }),
+        (V6u, true) => run_family!(c, Ipv6UnicastAddpathNlri, &cfg, |s: usize, i: usize| {
+            let (bits, a) = v6_parts(s - 4, i);
+            Ipv6UnicastAddpathNlri::try_from((Prefix::new_v6(Ipv6Addr::from(a), bits).unwrap(), PathId(i as u32))).unwrap()
+        }),
+        (V4m, false) => run_family!(c, Ipv4MulticastNlri, &cfg, |s: usize, i: usize| {
             let (bits, a) = v4_parts(s, i);
             Ipv4MulticastNlri::try_from(Prefix::new_v4(Ipv4Addr::from(a), bits).unwrap()).unwrap()
         }),
-        Fam::V6m => run_family!(c, Ipv6MulticastNlri, &cfg, |s: usize, i: usize| {
+        (V6m, false) => run_family!(c, Ipv6MulticastNlri, &cfg, |s: usize, i: usize| {
             let (bits, a) = v6_parts(s, i);
             Ipv6MulticastNlri::try_from(Prefix::new_v6(Ipv6Addr::from(a), bits).unwrap()).unwrap()
         }),
-        Fam::V4mpls => run_family!(c, Ipv4MplsUnicastNlri<Bytes>, &cfg, |s: usize, i: usize| {
-            let raw = Bytes::from(ref_nlri(Fam::V4mpls, s, i));
-            let mut p = Parser::from_ref(&raw);
-            <Ipv4MplsUnicastNlri<Bytes> as NlriParse<'_, Bytes, Bytes>>::parse(&mut p).unwrap()
-        }),
-        Fam::V6fs => run_family!(c, Ipv6FlowSpecNlri<Bytes>, &cfg, |s: usize, i: usize| {
-            let raw = Bytes::from(ref_nlri(Fam::V6fs, s, i));
-            let mut p = Parser::from_ref(&raw);
-            <Ipv6FlowSpecNlri<Bytes> as NlriParse<'_, Bytes, Bytes>>::parse(&mut p).unwrap()
-        }),
+        (V4m, true) => parsed!(Ipv4MulticastAddpathNlri),
+        (V6m, true) => parsed!(Ipv6MulticastAddpathNlri),
+        (V4mpls, false) => parsed!(Ipv4MplsUnicastNlri<Bytes>),
+        (V4mpls, true) => parsed!(Ipv4MplsUnicastAddpathNlri<Bytes>),
+        (V6mpls, false) => parsed!(Ipv6MplsUnicastNlri<Bytes>),
+        (V6mpls, true) => parsed!(Ipv6MplsUnicastAddpathNlri<Bytes>),
+        (V4vpn, false) => parsed!(Ipv4MplsVpnUnicastNlri<Bytes>),
+        (V4vpn, true) => parsed!(Ipv4MplsVpnUnicastAddpathNlri<Bytes>),
+        (V6vpn, false) => parsed!(Ipv6MplsVpnUnicastNlri<Bytes>),
+        (V6vpn, true) => parsed!(Ipv6MplsVpnUnicastAddpathNlri<Bytes>),
+        (V4rt, false) => parsed!(Ipv4RouteTargetNlri<Bytes>),
+        (V4rt, true) => parsed!(Ipv4RouteTargetAddpathNlri<Bytes>),
+        (V4fs, false) => parsed!(Ipv4FlowSpecNlri<Bytes>),
+        (V4fs, true) => parsed!(Ipv4FlowSpecAddpathNlri<Bytes>),
+        (V6fs, false) => parsed!(Ipv6FlowSpecNlri<Bytes>),
+        (V6fs, true) => parsed!(Ipv6FlowSpecAddpathNlri<Bytes>),
+        (Vpls, false) => parsed!(L2VpnVplsNlri),
+        (Vpls, true) => parsed!(L2VpnVplsAddpathNlri),
+        (Evpn, false) => parsed!(L2VpnEvpnNlri<Bytes>),
+        (Evpn, true) => parsed!(L2VpnEvpnAddpathNlri<Bytes>),
     }
 }
 
@@ -557,7 +694,7 @@ fn judge(c: &Case) -> Verdict {
     let run = run_case(c);
     if run.nh_rejected {
         // refusing a next hop that cannot be encoded is the error the property asks for
-        return Verdict { reply: "err nexthop".into(), ok: if c.nh == Nh::Unimpl { Ok(()) } else { Err("an encodable next hop was refused".into()) } };
+        return Verdict { reply: "err nexthop".into(), ok: if c.nh == Nh::Unimpl || c.nh == Nh::V4ll { Ok(()) } else { Err("an encodable next hop was refused".into()) } };
     }
     let (afi, safi, ap) = afisafi(c.fam);
     let exp_wd: Vec<Vec<u8>> = c.wd.as_ref().map_or(vec![], |v| v.iter().enumerate().map(|(i, s)| ref_nlri(c.fam, *s, 1_000_000 + i)).collect());
@@ -673,17 +810,31 @@ impl Prop for C06 {
 
 // ---------------------------------------------------------------- generator
 
-fn fam_name(f: Fam) -> &'static str { match f { Fam::V4u => "v4u", Fam::V6u => "v6u", Fam::V4ua => "v4ua", Fam::V6ua => "v6ua", Fam::V6fs => "v6fs", Fam::V4m => "v4m", Fam::V6m => "v6m", Fam::V4mpls => "v4mpls" } }
-fn size_range(f: Fam) -> (usize, usize) { match f { Fam::V4u | Fam::V4m => (1, 5), Fam::V6u | Fam::V6m => (1, 17), Fam::V4ua => (5, 9), Fam::V6ua => (5, 21), Fam::V6fs => (1, 4097), Fam::V4mpls => (4, 32) } }
+fn fam_name(f: Fam) -> String {
+    let n = BASES.iter().find(|(b, _)| *b == f.b).unwrap().1;
+    if f.ap { format!("{}a", n) } else { n.to_string() }
+}
+fn size_range(f: Fam) -> (usize, usize) {
+    let (lo, hi) = match f.b { V4u | V4m => (1, 5), V6u | V6m => (1, 17), V4mpls | V6mpls => (4, 32), V4vpn | V6vpn => (12, 32),
+        V4rt => (1, 13), V4fs | V6fs => (1, 4097), Vpls => (19, 19), Evpn => (2, 257) };
+    if f.ap { (lo + 4, hi + 4) } else { (lo, hi) }
+}
 fn nh_len(f: Fam, nh: &str) -> usize {
-    match nh { "v4" | "m4" => 5, "v6" => 17, "ll" | "ll2" => 33, "vpn4" => 13, "vpn6" => 25, "empty" => 1,
-        _ => match f { Fam::V4u | Fam::V4ua | Fam::V4m | Fam::V4mpls => 5, Fam::V6u | Fam::V6ua | Fam::V6m => 17, Fam::V6fs => 1 } }
+    match nh { "v4" | "m4" | "v4ll" => 5, "v6" => 17, "ll" | "ll2" | "ll3" => 33, "vpn4" => 13, "vpn6" => 25, "empty" => 1,
+        _ => 1 + default_nh_bytes(f) }
+}
+/// the next-hop forms a family is used with (RFC 4760 3, 2545 3, 8277, 4364 4.3.2, 4659 3.2.1, 8955 4)
+fn natural_nhs(f: Fam) -> &'static [&'static str] {
+    match f.b { V4u | V4rt | Vpls | Evpn => &["v4"], V4m => &["m4", "v4"], V6u => &["v6", "ll", "ll2", "ll3"], V6m => &["v6"],
+        V4mpls | V6mpls => &["v4", "v6", "ll"], V4vpn => &["vpn4"], V6vpn => &["vpn6"], V4fs | V6fs => &["empty"] }
 }
 
 fn fix_size(f: Fam, s: usize) -> usize {
     let (lo, hi) = size_range(f);
-    let s = s.clamp(lo, hi);
-    if f == Fam::V6fs && s == 241 { 240 } else { s }
+    let mut s = s.clamp(lo, hi);
+    // the few sizes inside the range that no NLRI has (FlowSpec: 241, IPv4 FlowSpec: 2)
+    while !size_ok(f, s) { s -= 1; }
+    s
 }
 
 /// tokens of family `f` whose sizes add up to exactly `total` (if possible), using sizes around `s`
@@ -716,8 +867,10 @@ fn rand_list(rng: &mut Rng, f: Fam, max_total: usize) -> Vec<String> {
     let mut total = 0;
     let k = rng.usize(1, 6);
     for _ in 0..k {
-        let s = if f == Fam::V6fs {
-            match rng.below(6) { 0 => rng.usize(1, 8), 1 => rng.usize(200, 260), 2 => rng.usize(900, 2100), 3 => rng.usize(3900, 4097), _ => rng.usize(1, 600) }
+        let s = if f.b == V6fs || f.b == V4fs {
+            match rng.below(6) { 0 => rng.usize(1, 8), 1 => rng.usize(200, 260), 2 => rng.usize(900, 2100), 3 => rng.usize(3900, 4101), _ => rng.usize(1, 600) }
+        } else if f.b == Evpn {
+            match rng.below(4) { 0 => rng.usize(lo, lo + 40), 1 => rng.usize(hi - 4, hi), _ => rng.usize(lo, hi) }
         } else { rng.usize(lo, hi) };
         let s = fix_size(f, s);
         let room = max_total.saturating_sub(total) / s;
@@ -735,11 +888,67 @@ fn line(op: &str, f: Fam, wd: &[String], ann: &[String], nh: &str, attrs: usize)
     format!("{} {} wd {} ann {} nh {} attrs {}", op, fam_name(f), w, a, nh, attrs)
 }
 
-const FAMS: [Fam; 8] = [Fam::V4u, Fam::V6u, Fam::V4ua, Fam::V6ua, Fam::V6fs, Fam::V4m, Fam::V6m, Fam::V4mpls];
-const NHS: [&str; 10] = ["-", "v4", "m4", "v6", "ll", "ll2", "vpn4", "vpn6", "empty", "unimpl"];
+/// the eight NLRI types of the first version of this check: they keep the full boundary block
+const FAMS: [Fam; 8] = [Fam { b: V4u, ap: false }, Fam { b: V6u, ap: false }, Fam { b: V4u, ap: true }, Fam { b: V6u, ap: true },
+    Fam { b: V6fs, ap: false }, Fam { b: V4m, ap: false }, Fam { b: V6m, ap: false }, Fam { b: V4mpls, ap: false }];
+const NHS: [&str; 12] = ["-", "v4", "m4", "v6", "ll", "ll2", "vpn4", "vpn6", "empty", "unimpl", "ll3", "v4ll"];
 const OPS: [&str; 4] = ["split", "iter", "take", "single"];
 
+fn all_fams() -> Vec<Fam> {
+    let mut v = Vec::new();
+    for (b, _) in BASES { v.push(Fam { b, ap: false }); v.push(Fam { b, ap: true }); }
+    v
+}
+
 fn fix_attrs(a: usize) -> usize { if a == 1 || a == 2 { 3 } else { a } }
+
+/// the boundary block of the 18 NLRI types added later: the same thresholds as the full block,
+/// each visited with the family's smallest and largest (<= 36) size, fewer operations per point
+fn gen_boundary_reduced(v: &mut Vec<String>, f: Fam) {
+    let s = |x: &str| x.to_string();
+    let (lo, hi) = size_range(f);
+    let hi = fix_size(f, hi.min(36));
+    let nat = natural_nhs(f)[0];
+    for (i, total) in [3999usize, 4000, 4001, 4002, 4060, 4067, 4095, 4096, 4097, 8001].into_iter().enumerate() {
+        let op = if i % 2 == 0 { "split" } else { "iter" };
+        for sz in [lo, hi] {
+            v.push(line(op, f, &fill(f, total, sz), &[], "-", 0));
+            v.push(line(op, f, &fill(f, total, sz), &fill(f, 5000, sz), nat, 64));
+        }
+    }
+    for nh in ["-", nat] {
+        for attrs in [0usize, 259, 3000] {
+            let limit = MAX_PDU - 31 - nh_len(f, nh) - attrs;
+            for d in [-1i64, 0, 1, 2] {
+                let op = if d % 2 == 0 { "split" } else { "iter" };
+                let t = (limit as i64 + d) as usize;
+                v.push(line(op, f, &[], &fill(f, t, hi), nh, attrs));
+                v.push(line(op, f, &[], &fill(f, t, lo), nh, attrs));
+                v.push(line(op, f, &[], &fill(f, (2 * limit as i64 + d) as usize, hi), nh, attrs));
+            }
+        }
+    }
+    for n in [2047usize, 2048, 2049, 4097] {
+        for op in OPS { v.push(line(op, f, &[], &[format!("{}x{}", lo, n)], "-", 0)); }
+        v.push(line("split", f, &[format!("{}x{}", lo, 10)], &[format!("{}x{}", lo, n)], nat, 100));
+    }
+    for (i, attrs) in [0usize, 3, 255, 260, 4040, 4060, 4066, 4070, 4075, 9000].into_iter().enumerate() {
+        let op = OPS[i % 4];
+        v.push(line(op, f, &[], &[], "-", attrs));
+        v.push(line(op, f, &[], &[format!("{}", lo)], "-", attrs));
+        v.push(line(op, f, &[format!("{}x2", lo)], &[], "-", attrs));
+        v.push(line("split", f, &[format!("{}x2", lo)], &[format!("{}x2", hi)], nat, attrs));
+    }
+    for op in ["split", "single"] {
+        v.push(line(op, f, &[], &[], nat, 0));
+        v.push(line(op, f, &[s("e")], &[], "-", 7));
+        v.push(line(op, f, &[s("e")], &[format!("{}x3000", lo)], "-", 0));
+        v.push(line(op, f, &[format!("{}x3000", lo)], &[], nat, 0));
+        v.push(line(op, f, &[], &[format!("{}", lo)], "unimpl", 0));
+    }
+    // every next-hop form once per family
+    for nh in NHS { v.push(line("split", f, &[format!("{}", hi)], &[format!("{}x3", lo), format!("{}", hi)], nh, 11)); }
+}
 
 fn gen(rng: &mut Rng, tier: Tier) -> Vec<String> {
     let mut v: Vec<String> = Vec::new();
@@ -796,16 +1005,42 @@ fn gen(rng: &mut Rng, tier: Tier) -> Vec<String> {
             v.push(line(op, f, &[s("e")], &[], "v6", 5000));
             v.push(line(op, f, &[], &[format!("{}", lo)], "unimpl", 0));
             v.push(line(op, f, &[format!("{}x2", lo)], &[], "unimpl", 9));
+            v.push(line(op, f, &[], &[format!("{}", lo)], "v4ll", 0));
+            v.push(line(op, f, &[format!("{}x2", lo)], &[format!("{}x900", hi)], "ll3", 9));
         }
     }
+    // ---- the other 18 NLRI types
+    for f in all_fams() { if !FAMS.contains(&f) { gen_boundary_reduced(&mut v, f); } }
     // ---- large single NLRI (FlowSpec): each size class around what fits alone
+    let v6fs = Fam { b: V6fs, ap: false };
     for op in OPS {
         for sz in [239usize, 240, 242, 243, 3999, 4000, 4001, 4002, 4058, 4059, 4060, 4061, 4062, 4063, 4064, 4065, 4066, 4067, 4068, 4097] {
-            v.push(line(op, Fam::V6fs, &[format!("{}", sz)], &[], "-", 0));
-            v.push(line(op, Fam::V6fs, &[], &[format!("{}", sz)], "-", 0));
-            v.push(line(op, Fam::V6fs, &[], &[format!("{}", sz)], "ll", 0));
-            v.push(line(op, Fam::V6fs, &[format!("{}", sz), s("5")], &[s("7"), format!("{}", sz)], "-", 0));
-            v.push(line(op, Fam::V6fs, &[s("5x3"), format!("{}", sz), s("9")], &[s("7"), format!("{}", sz), s("3")], "-", 4));
+            v.push(line(op, v6fs, &[format!("{}", sz)], &[], "-", 0));
+            v.push(line(op, v6fs, &[], &[format!("{}", sz)], "-", 0));
+            v.push(line(op, v6fs, &[], &[format!("{}", sz)], "ll", 0));
+            v.push(line(op, v6fs, &[format!("{}", sz), s("5")], &[s("7"), format!("{}", sz)], "-", 0));
+            v.push(line(op, v6fs, &[s("5x3"), format!("{}", sz), s("9")], &[s("7"), format!("{}", sz), s("3")], "-", 4));
+        }
+    }
+    // the same for IPv4 FlowSpec (component lists) and the ADD-PATH variants (path id + 4)
+    for f in [Fam { b: V4fs, ap: false }, Fam { b: V4fs, ap: true }, Fam { b: V6fs, ap: true }] {
+        let k = if f.ap { 4 } else { 0 };
+        for (i, sz) in [239usize, 240, 242, 243, 3999, 4000, 4001, 4002, 4058, 4060, 4061, 4062, 4063, 4064, 4065, 4066, 4068, 4097].into_iter().enumerate() {
+            let sz = sz + k;
+            let op = OPS[i % 4];
+            v.push(line("split", f, &[format!("{}", sz)], &[], "-", 0));
+            v.push(line(op, f, &[], &[format!("{}", sz)], "-", 0));
+            v.push(line("iter", f, &[format!("{}", sz), format!("{}", 5 + k)], &[format!("{}", 7 + k), format!("{}", sz)], "empty", 4));
+        }
+    }
+    // EVPN: the largest route (255 bytes after the two header octets) around the batch limits
+    for f in [Fam { b: Evpn, ap: false }, Fam { b: Evpn, ap: true }] {
+        let (_, hi) = size_range(f);
+        for op in ["split", "iter"] {
+            for n in [15usize, 16, 17] {
+                v.push(line(op, f, &[format!("{}x{}", hi, n)], &[format!("{}x{}", hi, n)], "v4", 0));
+                v.push(line(op, f, &[format!("{}x{}", hi - 1, n), s("9")], &[format!("{}x{}", hi, n), s("10")], "-", 300));
+            }
         }
     }
     // ---- bad-op stream
@@ -815,15 +1050,22 @@ fn gen(rng: &mut Rng, tier: Tier) -> Vec<String> {
               "split v9 wd - ann - nh - attrs 0", "join v4u wd - ann - nh - attrs 0", "split v4u wd - ann - nh foo attrs 0",
               "split v4u wd ann - nh - attrs 0", "split v4u wd - ann nh - attrs 0", "split v4u wd - - ann - nh - attrs 0",
               "split v4u wd e e ann - nh - attrs 0", "split v4u wd - ann e nh - attrs 0", "split v4u wd 1x ann - nh - attrs 0",
-              "split v4u wd x1 ann - nh - attrs 0", "split v4u wd -1 ann - nh - attrs 0", "split v4u wd 1 ann 1 nh - attrs x"] {
+              "split v4u wd x1 ann - nh - attrs 0", "split v4u wd -1 ann - nh - attrs 0", "split v4u wd 1 ann 1 nh - attrs x",
+              "split v4fs wd 2 ann - nh - attrs 0", "split v4fsa wd 6 ann - nh - attrs 0", "split v4fs wd 241 ann - nh - attrs 0",
+              "split vpls wd 18 ann - nh - attrs 0", "split vpls wd 20 ann - nh - attrs 0", "split vplsa wd 19 ann - nh - attrs 0",
+              "split evpn wd 1 ann - nh - attrs 0", "split evpn wd 258 ann - nh - attrs 0", "split evpna wd 262 ann - nh - attrs 0",
+              "split v4vpn wd 11 ann - nh - attrs 0", "split v6vpn wd 33 ann - nh - attrs 0", "split v6vpna wd 15 ann - nh - attrs 0",
+              "split v4rt wd 14 ann - nh - attrs 0", "split v6mpls wd 3 ann - nh - attrs 0", "split v6mplsa wd 37 ann - nh - attrs 0",
+              "split a wd - ann - nh - attrs 0", "split v4uaa wd 9 ann - nh - attrs 0", "split v6rt wd 1 ann - nh - attrs 0"] {
         v.push(s(l));
     }
     // ---- random mixes
-    let n = match tier { Tier::Quick => 2000, Tier::Thorough => 200_000 };
+    let fams = all_fams();
+    let n = match tier { Tier::Quick => 3000, Tier::Thorough => 300_000 };
     for _ in 0..n {
-        let f = *rng.pick(&FAMS);
+        let f = *rng.pick(&fams);
         let op = match rng.below(10) { 0..=4 => "split", 5..=7 => "iter", 8 => "take", _ => "single" };
-        let nh = if rng.chance(1, 2) { "-" } else { *rng.pick(&NHS) };
+        let nh = match rng.below(10) { 0..=3 => "-", 4..=7 => *rng.pick(natural_nhs(f)), _ => *rng.pick(&NHS) };
         let attrs = fix_attrs(match rng.below(8) { 0 => 0, 1 => rng.usize(3, 300), 2 => rng.usize(3900, 4100), 3 => rng.usize(0, 4070), _ => rng.usize(0, 600) });
         let budget = match rng.below(5) { 0 => 300, 1 => 4200, 2 => 9000, _ => 30_000 };
         let (wd, ann): (Vec<String>, Vec<String>) = match rng.below(10) {
@@ -832,17 +1074,17 @@ fn gen(rng: &mut Rng, tier: Tier) -> Vec<String> {
             2 => {
                 // withdrawals that total <= 4000 next to an oversize announcement set (F13's shape)
                 let t = rng.usize(1, 4000);
-                (fill(f, t, rng.usize(1, 21)), rand_list(rng, f, 30_000))
+                (fill(f, t, rng.usize(1, 40)), rand_list(rng, f, 30_000))
             }
             3 => {
                 // land on a threshold
                 let t = *rng.pick(&[3999usize, 4000, 4001, 4002, 4095, 4096, 4097]);
-                (fill(f, t, rng.usize(1, 21)), if rng.bool() { vec![] } else { rand_list(rng, f, budget) })
+                (fill(f, t, rng.usize(1, 40)), if rng.bool() { vec![] } else { rand_list(rng, f, budget) })
             }
             4 => {
                 let limit = MAX_PDU.saturating_sub(31 + nh_len(f, nh) + attrs);
                 let t = (limit as i64 + rng.range(0, 3) as i64 - 1).max(1) as usize;
-                (if rng.bool() { vec![] } else { rand_list(rng, f, 4200) }, fill(f, t * rng.usize(1, 3), rng.usize(1, 21)))
+                (if rng.bool() { vec![] } else { rand_list(rng, f, 4200) }, fill(f, t * rng.usize(1, 3), rng.usize(1, 40)))
             }
             _ => (rand_list(rng, f, budget), rand_list(rng, f, budget)),
         };
